@@ -219,7 +219,7 @@ func extPure(name string) bool {
 		"(encoding/base32.Encoding).WithPadding", "(*encoding/base32.Encoding).WithPadding", "(*math/big.Int).SetString", "(*math/big.Int).Text",
 		"crypto/sha1.", "crypto/sha256.", "crypto/sha512.", "crypto/hmac.", "(error).Error", "runtime.", "(*runtime.",
 		"encoding/json.Marshal", "(*encoding/json.Encoder).Encode", "encoding/json.NewEncoder", "os/signal.", "context.",
-		"syscall/js.", "(syscall/js.", "(hash.Hash).Sum", "(hash.Hash).Write", "(hash.Hash).Size", "(hash.Hash).BlockSize"} {
+		"syscall/js.", "(syscall/js.", "(hash.Hash).Write", "(hash.Hash).Size", "(hash.Hash).BlockSize"} {
 		if strings.HasPrefix(name, p) {
 			return true
 		}
@@ -238,6 +238,8 @@ func extReadsArg(name string, i int) bool {
 		return false
 	case "encoding/hex.Decode":
 		return i == 1
+	case "(hash.Hash).Sum":
+		return i == 0 // Sum(b) appends the digest to b: it writes b's spare capacity, not the hash
 	}
 	return false
 }
